@@ -754,7 +754,12 @@ func (am *AccountingManager) sendAccountingStopSync(ctx context.Context, session
 		)
 		// Queue for persistence - will be recovered on next startup
 		am.queuePendingRecord(req)
+		return
 	}
+
+	// Acknowledged: drop the persisted session, otherwise the next startup takes it for an
+	// orphan and sends a second Accounting-Stop for it.
+	am.removePersistedSession(session.SessionID)
 }
 
 // Persistence methods for crash recovery
@@ -823,6 +828,9 @@ func (am *AccountingManager) recoverOrphanedSessions() error {
 		return err
 	}
 
+	// Sessions whose Stop is sent (or re-queued) from their persisted session below
+	recovered := make(map[string]bool)
+
 	for _, entry := range entries {
 		if entry.IsDir() || filepath.Ext(entry.Name()) != ".json" {
 			continue
@@ -875,6 +883,7 @@ func (am *AccountingManager) recoverOrphanedSessions() error {
 
 		am.verifCrashPoint(14, session.SessionID)
 		atomic.AddUint64(&am.orphanedRecovered, 1)
+		recovered[session.SessionID] = true
 		os.Remove(path)
 	}
 
@@ -896,6 +905,11 @@ func (am *AccountingManager) recoverOrphanedSessions() error {
 
 	am.pendingMu.Lock()
 	for id, record := range records {
+		if record.Request != nil && record.Request.StatusType == AcctStatusStop && recovered[record.Request.SessionID] {
+			// The same session's Stop was just sent (or re-queued) from its persisted
+			// session; loading this copy as well would send the Stop twice.
+			continue
+		}
 		am.pendingRecords[id] = record
 		select {
 		case am.pendingQueue <- record:
